@@ -10,6 +10,7 @@ one statement, uniformly for types with and without reference unit.
 normalised definition), `CacheSound` the cache invariant (C17).
 -/
 import QuantityModel.Proofs.UnitOps
+import QuantityModel.Proofs.Invariants
 import QuantityModel.Proofs.Quantity
 namespace QM.Props.C02
 open QM QM.QState
@@ -100,5 +101,15 @@ theorem unit_pow_zero_one (d : Rounding) (u : Nat) :
     s.powUnit d u 0 = .ok (.num 1) ∧
     s.powUnit d u 1 = (s.reg.mkQty d (some (s.reg.unitCls u)) 1 u).map Val.qty := by
   constructor <;> simp [QState.powUnit]
+
+/-- the same for EVERY state reachable by declarations (valid or rejected, in
+any order) with a fresh operation cache: the directory invariant is not an
+assumption but a theorem (`reachable_dirInv`) -/
+theorem unit_product_value_reachable (hR : Reachable s.reg) (hcache : s.reg.opCache = [])
+    (hA : Admissible s.reg ν) (u v : Nat) (f : ℚ) (w : Option Nat)
+    (h : (s.mulUnits u v).2 = .ok (f, w)) : f * optVal ν w = ν u * ν v := by
+  have hC : CacheSound s.reg ν := by
+    intro op u' v' f' w' hm; rw [hcache] at hm; simp at hm
+  exact (mulUnits_sound s ν hA (reachable_dirInv hR).termMapSound hC u v).1 f w h
 
 end QM.Props.C02
